@@ -380,7 +380,7 @@ func permSequences(t *testing.T, run *ev.Run, stage string) {
 	randGroups := func() []int {
 		return [][]int{nil, {0}, {1}, {0, 1}, {2}}[r.Intn(5)]
 	}
-	for range ev.Pick(1500, 40000) {
+	for range ev.Pick(1500, 120000) {
 		sc := &seqCase{Family: "random", InitPerms: [][]permSpec{randPerms(), randPerms()}, InitGroups: [][]int{randGroups(), randGroups()}}
 		n := 3 + r.Intn(5)
 		for range n {
